@@ -607,3 +607,81 @@ def gen_parser_steps():
     out.append(",\n".join('  ("%s", [%s])' % (fn, ", ".join(f'("{a}", "{b}")' for a, b in ev)) for fn, ev in rows))
     out += ["]", "", "end Generated", ""]
     return "\n".join(out)
+
+
+EVENT_PAT = re.compile(
+    r"\b(type_check_rec|unify|normalize_weak_head|open|unsigned_shift|signed_shift|syntactically_equal)\s*\(|"
+    r"\b(typing_context|definitions_context)\s*\.\s*(push|pop|truncate)\s*\(|"
+    r"\b(Rc::new\(RefCell::new\(None\)\))|\b(context_cell!|ScopeGuard|scopeguard::guard|defer!)")
+
+def event_trace(abody, self_fn):
+    """the calls that matter, in textual order, with whitespace-free arguments"""
+    ev = []
+    for m in EVENT_PAT.finditer(abody):
+        if m.group(1):
+            depth, j = 0, m.end() - 1
+            start = j + 1
+            while True:
+                if abody[j] == "(": depth += 1
+                elif abody[j] == ")":
+                    depth -= 1
+                    if depth == 0: break
+                j += 1
+            args = [re.sub(r"\s+", "", a) for a in split_top(abody[start:j], ",") if a.strip()]
+            f = m.group(1)
+            if f == "type_check_rec":
+                # (source_path, source_contents, term, typing_context, definitions_context, errors)
+                ev.append("infer " + (args[2] if len(args) > 2 else "?"))
+            elif f == "unify":
+                ev.append("unify " + " ".join(a.lstrip("&") for a in args[:2]))
+            elif f in ("open", "unsigned_shift", "signed_shift"):
+                ev.append(f + " " + " ".join(a.lstrip("&") for a in args))
+            elif f == "normalize_weak_head":
+                ev.append("whnf " + (args[0].lstrip("&") if args else "?"))
+            else:
+                ev.append(f + " " + " ".join(a.lstrip("&") for a in args[:2]))
+        elif m.group(2):
+            ev.append(m.group(3) + " " + ("T" if m.group(2) == "typing_context" else "D"))
+        elif m.group(4):
+            ev.append("fresh-hole")
+        else:
+            ev.append("guard")
+    return ev
+
+def gen_event_traces():
+    """type_check_rec (every arm) and unify (the binder arms): the calls that matter, in order — which child is checked when, what
+    is unified with what, where the two contexts are pushed and popped, which `open`/shift is applied with which arguments"""
+    tc = strip_hooks(strip_comments(strip_tests(read("src/type_checker.rs"))))
+    un = strip_hooks(strip_comments(strip_tests(read("src/unifier.rs"))))
+    rows = []
+    body = fn_body(tc, "type_check_rec")
+    blk = top_match(body, "type_check_rec")
+    for pat, abody in split_arms(blk, "type_check_rec"):
+        for name, fields in parse_pattern(pat, "type_check_rec"):
+            if name in BINARY: continue          # covered by checkShape
+            ev = event_trace(abody, "type_check_rec")
+            # names bound by the pattern are written by position, so that renaming them consistently changes nothing
+            for i, f in sorted(enumerate(fields), key=lambda p: -len(p[1])):
+                if f in ("_", ""): continue
+                ev = [re.sub(r"\b" + re.escape(f) + r"_type\b", f"${i}_type", re.sub(r"\b" + re.escape(f) + r"\b", f"${i}", e)) for e in ev]
+            rows.append(("type_check_rec", name, ev))
+    ub = fn_body(un, "unify")
+    blk = None
+    for m in re.finditer(r"\bmatch\s*\(\s*&\w+\.variant\s*,\s*&\w+\.variant\s*\)\s*\{", ub):
+        b, _ = match_block(ub, m.start())
+        if "Sum(" in b and "If(" in b: blk = b
+    if blk is None: fail("arms: unify: no match on a pair of variants")
+    for pat, abody in split_arms(blk, "unify"):
+        head = re.sub(r"\s+", "", pat)
+        for v in ("Lambda", "Pi"):
+            if head.startswith("(" + v + "("):
+                ev = event_trace(abody, "unify")
+                ev = [re.sub(r"\b(body|domain|codomain)([12])\b", lambda m: "$" + m.group(1) + m.group(2), e) for e in ev]
+                rows.append(("unify", v, ev))
+    out = ["/-! GENERATED by extract/arms.py from /repo/src/type_checker.rs and unifier.rs — do not edit. -/", "", "namespace Generated", "",
+           "/-- (function, arm, the calls that matter in textual order: `infer x` = `type_check_rec(.., x, ..)`, `unify a b`, `push T|D` / `pop T|D` on the typing /",
+           "definitions context, `open ..`, `unsigned_shift ..`, `fresh-hole`, `whnf x`) -/",
+           "def eventTraces : List (String × String × List String) := ["]
+    out.append(",\n".join('  ("%s", "%s", [%s])' % (f, a, ", ".join('"%s"' % e.replace("\\", "\\\\").replace('"', '\\"') for e in ev)) for f, a, ev in rows))
+    out += ["]", "", "end Generated", ""]
+    return "\n".join(out)
